@@ -608,7 +608,10 @@ class RequestHandler(BaseProtocol, Generic[_Request]):
         if self._waiter:
             self._waiter.cancel()
         if self.transport is not None:
-            self.transport.close()
+            # A second close() detaches asyncio's TLS transport from its
+            # connection: it could not be queried or aborted afterwards.
+            if not self.transport.is_closing():
+                self.transport.close()
             self.transport = None
 
     async def log_access(
